@@ -1,6 +1,7 @@
 package io
 
 import (
+	"errors"
 	zerr "github.com/DemoHn/Zn/pkg/error"
 	"io"
 	"unicode/utf8"
@@ -13,25 +14,40 @@ type InputStream interface {
 	ReadAll() ([]rune, error)
 }
 
-// readRune - read bytes and yield runes
-func readRune(r io.Reader, remains []byte, b int) ([]rune, []byte, error) {
+// errInvalidUTF8 - the input contains a byte sequence that is not valid UTF-8
+var errInvalidUTF8 = errors.New("内容不是合法的 UTF-8 编码")
+
+// readRune - read bytes and yield runes.
+// It returns the decoded runes, the bytes of an incomplete sequence at the end of the
+// block (to be completed by the next block) and whether the reader has reached EOF.
+// A byte sequence that can never become valid UTF-8 is an error, never a silent stop.
+func readRune(r io.Reader, remains []byte, b int) ([]rune, []byte, bool, error) {
 	p := make([]byte, b)
 	rs := make([]rune, 0)
 
 	t, err := r.Read(p)
 	if err != nil && err != io.EOF {
-		return rs, []byte{}, zerr.ReadFileError(err, " <buffer> ")
+		return rs, []byte{}, false, zerr.ReadFileError(err, " <buffer> ")
 	}
+	eof := err == io.EOF
 
 	buf := append(remains, p[:t]...)
 	for len(buf) > 0 {
+		if !utf8.FullRune(buf) {
+			if eof {
+				// the input ends in the middle of a character
+				return rs, buf, eof, zerr.ReadFileError(errInvalidUTF8, " <buffer> ")
+			}
+			// the character continues in the next block
+			break
+		}
 		ru, size := utf8.DecodeRune(buf)
-		if ru == utf8.RuneError {
-			return rs, buf, nil
+		if ru == utf8.RuneError && size == 1 {
+			return rs, buf, eof, zerr.ReadFileError(errInvalidUTF8, " <buffer> ")
 		}
 
 		rs = append(rs, ru)
 		buf = buf[size:]
 	}
-	return rs, buf, nil
+	return rs, buf, eof, nil
 }
